@@ -2,5 +2,7 @@ SPECIFICATION Spec
 CONSTANT Depth = 4
 CONSTANT RcvMode = 1
 CONSTANT SndMode = 0
+CONSTANT PeerH1 = 5
+CONSTANT PeerH3 = 8
 INVARIANT Emit
 CHECK_DEADLOCK FALSE
